@@ -21,7 +21,7 @@ LAZY_NAMES = [n for ns in LAZY_GROUPS.values() for n in ns]
 # eager names: read as perturbation and compared like any other read
 EAGER_NAMES = ["mass", "density", "number_density", "interatomic_distance", "abundance",
                "isotopes", "ions", "symbol", "name", "number", "charge"]
-PUBLIC_GROUPS = ["mass", "density", "covalent_radius", "crystal_structure", "neutron",
+PUBLIC_GROUPS = ["base", "mass", "density", "covalent_radius", "crystal_structure", "neutron",
                  "activation", "xray", "emission", "magnetic_ff", "routes", "calc", "calc_public"]
 INIT_GROUPS = ["mass", "density", "neutron", "xray", "emission", "covalent_radius",
                "crystal_structure", "magnetic_ff", "activation"]
